@@ -223,6 +223,18 @@ def run(spec, *, keep_snaps=True, snapshots_cfg=True, timeout=120, optimizer_obj
         opt, cfg, repaired = optimizer_obj, optimizer_obj.configuration, False
     task = task_obj if task_obj is not None else tasks.build_task(spec["task"])
     obs.optimizer, obs.config, obs.task, obs.repaired = opt, cfg, task, repaired
+    if spec.get("warmup") is not None and optimizer_obj is None:
+        # the judged run is made on an instance that has already been used on another task (its outcome is ignored)
+        REC.reset()
+        try:
+            with contextlib.redirect_stdout(io.StringIO()), np.errstate(all="ignore"), watchdog(timeout):
+                opt.optimize(tasks.build_task(spec["warmup"]))
+        except CaseTimeout:
+            obs.outcome = "timeout"
+            obs.result = obs.exc = obs.exc_key = obs.exc_text = None
+            return obs
+        except Exception:  # noqa: BLE001 - a crashing warm-up is some other check's business
+            pass
     REC.reset()
     REC.delay = delay
     REC.log_args = [] if log_args else None
